@@ -185,3 +185,41 @@ func VerifC19_Conc_TwoQueuedTwoReleases() {
 	verif.Assert("two-releases-pool-holds-the-tokens-owned", ps.GetBusyCount() == verif.B2I(g0)+verif.B2I(g1))
 	verif.Reach("end")
 }
+
+// VerifC19_ReleaseClosingAWindowStillServes (sequential step, free clock): a pool of limit 1 whose
+// only token is held; the underlying default limiter's sample window, next-update instant and gauge
+// are ARBITRARY (so the completion may be the one that closes a window and runs the limit update
+// under the limiter's lock); the holder completes with any outcome: the completion returns (no
+// self-deadlock on the limiter's own mutex - the engine's lock model reports re-acquisition), the
+// token is back, and the next caller is served - for every ordering.
+//
+//verif:harness property=C19 theory=bv tier=quick replay=engine clock=free
+func VerifC19_ReleaseClosingAWindowStillServes() {
+	ord := []Ordering{OrderingRandom, OrderingFIFO, OrderingLIFO}[verif.Choice("ordering", 3)]
+	p, err := NewFixedPool("p", ord, 1, 100, time.Second, time.Second, time.Millisecond, 10, time.Hour, nil, nil)
+	verif.Assert("pool-constructed", err == nil)
+	var dl *limiter.DefaultLimiter
+	kind, _, _, _, delegate := limiter.VerifDescribe(p.limiter)
+	if kind == "default" {
+		dl = p.limiter.(*limiter.DefaultLimiter)
+	} else {
+		dl = delegate.(*limiter.DefaultLimiter)
+	}
+	st, _ := limiter.VerifDefaultParts(dl)
+	ps := st.(*strategy.PreciseStrategy)
+	h, ok := p.Acquire(context.Background())
+	verif.Assert("setup-holds-the-token", ok && ps.GetBusyCount() == 1)
+	limiter.VerifSymbolicState(dl)
+	switch verif.Choice("outcome", 3) {
+	case 0:
+		h.OnSuccess()
+	case 1:
+		h.OnIgnore()
+	default:
+		h.OnDropped()
+	}
+	verif.Assert("completion-returns-the-token", ps.GetBusyCount() == 0)
+	l2, ok2 := p.Acquire(context.Background())
+	verif.Assert("next-caller-served-after-any-completion", ok2 && l2 != nil && ps.GetBusyCount() == 1)
+	verif.Reach("end")
+}
